@@ -234,13 +234,25 @@ def r2_sql(ctx, repo, cls):
             if not (c.args and access_path(c.args[0]) and access_path(c.args[0]).endswith("." + upsert[0]) and len(c.args) == 2):
                 continue
             if c.func.attr == "execute":
-                bound = TF.expand(c.args[1], at=stmt_of.get(id(c)), elems=False) if stmt_of.get(id(c)) is not None else c.args[1]
-                if isinstance(bound, (ast.List, ast.Tuple)) and len(bound.elts) == 2:
-                    a, b = bound.elts
-                    if pair_ok(a, b):
-                        verdict = True
-                    else:
-                        verdict, detail = False, "bound values are (%s, %s), expected (x.id, json.dumps(x.to_dict()))" % (text(a), text(b))
+                # the bound pair on every path that reaches this execute, temporaries of the path looked through
+                st_c = stmt_of.get(id(c))
+                seen_paths = 0
+                for p_ in Enumerator(loop_counts=(0, 1)).function_paths(fn):
+                    for k_, e_ in enumerate(p_.events):
+                        if e_.kind == "stmt" and e_.node is st_c:
+                            seen_paths += 1
+                            bound = PathEnv(fn, p_.events).expand_at(c.args[1], k_)
+                            if isinstance(bound, (ast.List, ast.Tuple)) and len(bound.elts) == 2:
+                                a, b = bound.elts
+                                if pair_ok(a, b):
+                                    verdict = True if verdict is None else verdict
+                                elif isinstance(b, ast.Call) and access_path(b.func) == "json.dumps" or (access_path(a) or "").endswith(".id") and isinstance(b, ast.Call):
+                                    verdict, detail = False, "bound values are (%s, %s), expected (x.id, json.dumps(x.to_dict()))" % (text(a), text(b))
+                                elif verdict is not False:
+                                    verdict, detail = None, "bound values (%s, %s) not resolved" % (text(a), text(b))
+                            break
+                if seen_paths == 0 and verdict is None:
+                    detail = "the upsert is not reached on any path"
                 continue
             # executemany(upsert, ROWS)
             rows = c.args[1]
@@ -283,7 +295,30 @@ def r2_sql(ctx, repo, cls):
             ctx.inconclusive("R2", C2, where(mod, fn), detail, key="binding")
         else:
             ctx.violated("R2", C2, where(mod, fn), "the upsert statement is never executed", key="binding")
+    # every synchronisation really writes: sync_individual (single upsert then commit on every write-mode path) ...
+    from . import c11
+    from .c18 import SubCtx
+    c11.r2_sync(SubCtx(ctx, "R2", prefix="every synchronisation must write the row: "), repo, cls)
+    # ... and sync_all: one upsert per recorded individual on every path of the loop body
     fn = cls.methods.get("sync_all")
+    for lp_ in [s_ for s_ in stmts_of(fn) if isinstance(s_, ast.For) and (access_path(s_.iter) or "").endswith(".problem.individuals")]:
+        fake = ast.FunctionDef(name="b", args=fn.args, body=lp_.body, decorator_list=[], returns=None, type_comment=None, lineno=lp_.lineno, col_offset=0)
+        skipped = None
+        nb = 0
+        has_exec = any(isinstance(c_.func, ast.Attribute) and c_.func.attr == "execute" for c_ in calls_in(lp_))
+        for p_ in Enumerator(loop_counts=(0, 1)).function_paths(fake):
+            if p_.outcome == "raise":
+                continue
+            nb += 1
+            n_ex = sum(1 for e_ in p_.events if e_.kind == "stmt" for c_ in calls_in(e_.node) if isinstance(c_.func, ast.Attribute) and c_.func.attr == "execute")
+            if has_exec and n_ex != 1:
+                skipped = skipped or (p_, n_ex)
+        if has_exec:
+            if skipped:
+                ctx.violated("R2", "SqliteDataStore.sync_all", where(mod, lp_), "an individual gets %d upsert(s) on the path [%s] of the loop body (expected exactly one): "
+                             "its latest state is not what the store holds afterwards" % (skipped[1], skipped[0].describe(4)), key="write-each")
+            else:
+                ctx.holds("R2", "SqliteDataStore.sync_all", where(mod, lp_), "exactly one upsert per recorded individual on all %d paths of the loop body" % nb, key="write-each")
     loops = [s for s in stmts_of(fn) if isinstance(s, ast.For)]
     ok = any((access_path(l.iter) or "").endswith(".problem.individuals") for l in loops) or any(
         (access_path(g.iter) or "").endswith(".problem.individuals") and not g.ifs
